@@ -208,8 +208,10 @@ class SA_VQESolver(VQESolver):
                          else reference_circuit + self.ansatz.circuit)
             state_energy = self.backend.get_expectation_value(self.qubit_hamiltonian, full_circ, **self.simulate_options)
             for circ in self.deflation_circuits:
-                f_dict, _ = self.backend.simulate(circ + full_circ.inverse(), **self.simulate_options)
-                state_energy += self.deflation_coeff * f_dict.get("0"*self.ansatz.circuit.width, 0)
+                overlap_circuit = circ + full_circ.inverse()
+                f_dict, _ = self.backend.simulate(overlap_circuit, **self.simulate_options)
+                # The all-zero key has the width of the circuit that was simulated (the ansatz circuit alone can be narrower)
+                state_energy += self.deflation_coeff * f_dict.get("0"*overlap_circuit.width, 0)
             energy += state_energy*self.weights[i]
             self.state_energies.append(state_energy)
 
